@@ -130,17 +130,21 @@ def _need(reactants):
 def massaction_job(interp, c, case, domain, routes, modes=None):
     """case = (species list, [reactant lists], named)"""
     T = interp.load("bioscrape.types")
-    species, rxns, named = case
+    species, rxns, named = case[:3]
+    shared = len(case) > 3 and case[3] == "shared"       # one parameter dictionary OBJECT passed for every reaction (a common way to write models)
     ks = [c.real("k%d" % i, lo=0, lo_strict=True) for i in range(len(rxns))]
+    if shared:
+        ks = [ks[0]] * len(rxns)
     V = c.real("V", lo=0, lo_strict=True)
     t = c.real("t", lo=0)
     state = {sp: (c.int("s_" + sp, lo=0) if domain == "int" else c.real("s_" + sp, lo=0)) for sp in species}
     reactions, params = [], []
+    one = {"k": "kp0"}
     for i, reactants in enumerate(rxns):
-        reactions.append((list(reactants), [], "massaction", {"k": "kp%d" % i} if named else {"k": ks[i]}))
-        if named:
+        reactions.append((list(reactants), [], "massaction", one if shared else {"k": "kp%d" % i} if named else {"k": ks[i]}))
+        if named and not (shared and i):
             params.append(("kp%d" % i, ks[i]))
-    tag = "massaction[%s]%s" % (" ; ".join("*".join(r) or "0" for r in rxns), "/named" if named else "/numeric")
+    tag = "massaction[%s]%s" % (" ; ".join("*".join(r) or "0" for r in rxns), "/shared dict" if shared else "/named" if named else "/numeric")
     syms = {"V": V, "t": t, **{"k%d" % i: k for i, k in enumerate(ks)}, **{"s_" + s_: v for s_, v in state.items()}}
     try:
         M = T.ns["Model"](species=list(species), reactions=reactions, parameters=params)
@@ -151,7 +155,7 @@ def massaction_job(interp, c, case, domain, routes, modes=None):
         return
     for route, mode, vals in _eval_routes(interp, c, M, state, V, t, routes, modes=modes):
         base = dict(kind="massaction", species=list(species), rxns=[list(r) for r in rxns], named=named, mode=mode,
-                    route=route, domain=domain)
+                    route=route, domain=domain, shared=shared)
         if isinstance(vals, CFault):
             rp = dict(base, rxn=0, syms=syms, fault=str(vals))
             _prove(c, False, "%s %s %s: memory-unsafe access (%s)" % (tag, mode, route, vals),
@@ -269,6 +273,9 @@ def massaction_structures(tier):
             if tier == "quick" and len(r0) + len(r1) > 4:
                 continue
             out.append((sp, [r0, r1], True))
+    # the same dictionary object for reactions with different reactants
+    for r0, r1 in ((("A",), ("B",)), ((), ("A",)), (("A", "B"), ("A",)), (("A", "A"), ("A", "B")), (("A", "A", "B"), ("B",))):
+        out.append((sorted(set(r0) | set(r1)), [r0, r1], True, "shared"))
     return out
 
 
